@@ -144,6 +144,8 @@ JoinerMode(P, st) ==
 \*     "g" arrive pending, "w" parked at a gate, "x" exit pending, "done".
 
 Gated(s, id) == id \in s.gates
+\* after the caller got its result the harness opens every gate silently so that detached tasks can finish their step
+Rel(s, id) == id \in s.released \/ s.ph = "ended"
 
 RECURSIVE Norm(_, _, _, _, _)
 Norm(s, b, i, ph, v) ==     \* skip everything that produces no event
@@ -184,7 +186,7 @@ BranchEvent(s, b) ==
     [] p.ph = "g" -> {E("arrive", id, b, NoV, <<>>)}
     [] p.ph = "w" -> {}
     [] p.ph = "x" ->
-         IF Gated(s, id) /\ id \notin s.released /\ ~(IsAsync(P) /\ ~s.arrived[b]) THEN {}
+         IF Gated(s, id) /\ ~Rel(s, id) /\ ~(IsAsync(P) /\ ~s.arrived[b]) THEN {}
          ELSE IF ActOf(s.plan, "f", id) = "panic" /\ ~IsAsync(P) THEN {E("panic", id, b, NoV, <<>>)}
          ELSE {E("exit", id, b, After(P, ItemAt(s, b).op, ActOf(s.plan, "f", id), p.v, id, b), <<>>)}
     [] OTHER -> {}
@@ -417,7 +419,7 @@ ApplyBranch(s0, e) ==
          ELSE SetPc(s, b, Norm(s, b, p.i, "e", p.v))
     [] e.ev = "enter" ->
          IF IsAsync(P) /\ ActOf(s.plan, "f", e.id) = "panic" THEN [s EXCEPT !.pp = "f", !.pb = b]
-         ELSE IF Gated(s, e.id) /\ (IsAsync(P) => e.id \notin s.released) THEN SetPc(s, b, [p EXCEPT !.ph = "g"])
+         ELSE IF Gated(s, e.id) /\ (IsAsync(P) => ~Rel(s, e.id)) THEN SetPc(s, b, [p EXCEPT !.ph = "g"])
          ELSE SetPc(s, b, [p EXCEPT !.ph = "x"])
     [] e.ev = "arrive" ->
          [SetPc(s, b, [p EXCEPT !.ph = IF p.i = 0 THEN "w" ELSE "x"]) EXCEPT !.arrived[b] = TRUE]
